@@ -1877,6 +1877,18 @@ def s_map_extend(E, a, info):
 @summ('Arguments::from_str', 'Arguments::new', 'Arguments::new_const', 'Arguments::new_v1', 'core::fmt::rt::Argument::new_display',
       'core::fmt::rt::Argument::new_debug', 'core::fmt::rt::Argument::new_pointer', 'Arguments::as_str')
 def s_fmt_args(E, a, info):
+    key = info['key']
+    if key.endswith('new_display') or key.endswith('new_debug') or key.endswith('new_pointer'):
+        return Agg('FmtArg', key.rsplit('_', 1)[1], (a[0],))
+    if key in ('Arguments::new', 'Arguments::new_v1') and len(a) >= 2 and isinstance(a[1], Ptr):
+        tmpl = ''
+        try:
+            v = E.heap[a[0].obj].value
+            if isinstance(v, Opaque) and str(v.what).startswith('str:'):
+                tmpl = v.what[4:]
+        except Exception:
+            pass
+        return Agg('FmtArgs', None, (tmpl, a[1]))
     if a and isinstance(a[0], Ptr):
         try:
             v = E.heap[a[0].obj].value
@@ -1896,6 +1908,26 @@ def _sink(E, kind, detail):
 @summ('Formatter::write_fmt', 'Formatter::<\'_>::write_fmt', 'core::fmt::Write::write_fmt', '<Formatter as Write>::write_fmt')
 def s_formatter_write_fmt(E, a, info):
     v = a[1]
+    if isinstance(v, Agg) and v.name == 'FmtArgs':
+        import re as _re
+        tmpl, argsp = v.fields
+        if _re.sub(r'\\x[0-9a-fA-F]{2}', '', tmpl).strip():
+            _sink(E, 'str', '<lit>')
+        arr = E.read(argsp)
+        for fa in (arr.fields if isinstance(arr, Agg) else []):
+            if not (isinstance(fa, Agg) and fa.name == 'FmtArg'):
+                raise Unsupported('format argument %r' % (fa,))
+            x = fa.fields[0]
+            for _ in range(4):
+                if isinstance(x, Ptr):
+                    x = E.read(x)
+            if isinstance(x, TVal):
+                # T's formatter is called on a fresh Formatter: the caller's width / fill / precision / flags are gone
+                E.hooks.method_T(E, '<T as %s>::fmt' % ('Debug' if fa.variant == 'debug' else 'Display'), [x])
+                _sink(E, 'spec-dropped', '')
+            else:
+                _sink(E, 'raw', 'format argument %s' % type(x).__name__)
+        return Agg('Result', 'Ok', (UNIT,))
     _sink(E, 'str', v.what[5:] if isinstance(v, Opaque) and str(v.what).startswith('args:') else '<fmt>')
     return Agg('Result', 'Ok', (UNIT,))
 
